@@ -102,6 +102,19 @@ Section Gen.
     | KdUnion => Ok (nr_children n)
     end.
 
+  (** typeName: the generated package can not name the unexported types of another package (refused since fix "randdata:
+      refuse the unexported types of another package") *)
+  Definition nameable (n : nrec) : bool :=
+    match nr_kind n with
+    | KdNamed | KdEnum | KdStruct | KdUnion =>
+        match nr_self n with
+        | GNamed id => match find_type id (pr_types pr) with
+                       | Some d => String.eqb (n_pkg d) (pr_root pr) || n_exported d
+                       | None => true end
+        | _ => true end
+    | _ => true
+    end.
+
   Fixpoint gen_list (g : list string -> gty -> result (list string * list rdecl)) (ts : list gty) (cache : list string)
     : result (list string * list rdecl) :=
     match ts with
@@ -121,6 +134,7 @@ Section Gen.
           let hit := match node_key n with Some k => existsb (String.eqb k) cache | None => false end in
           if hit then Ok (cache, []) else
           let cache1 := match node_key n with Some k => k :: cache | None => cache end in
+          if negb (nameable n) then Diag "type is not exported : random data can't be generated" else
           do ks <- kids n;
           do r <- gen_list (generate f) ks cache1;
           do id <- fid fid_fuel t;
